@@ -1,3 +1,4 @@
+import errno
 import grp
 import os
 import pwd
@@ -90,7 +91,15 @@ class RealFs(RealVolumeOf, Fs):
         os.mkdir(path, mode)
 
     def move(self, path, dest):
-        return fs.move(path, dest)
+        try:
+            os.rename(path, dest)
+        except OSError as e:
+            # copy + delete only makes sense across file systems; on any
+            # other error (EBUSY for a mount point, EACCES, EROFS, ...) it
+            # would copy the tree, delete what it can and still fail
+            if e.errno != errno.EXDEV:
+                raise
+            return fs.move(path, dest)
 
     def remove_file(self, path):
         fs.remove_file(path)
